@@ -87,6 +87,10 @@ func (p *Parser) parseTransaction() *ast.Transaction {
 
 	if p.current.Type == TokenEquals {
 		p.advance()
+		if p.current.Type == TokenNumber {
+			// a secondary date without year ("=01/16") starts like a number
+			p.current = p.lexer.RescanAsDate(p.current.Pos)
+		}
 		date2 := p.parseDate()
 		if date2 != nil {
 			tx.Date2 = date2
@@ -97,11 +101,17 @@ func (p *Parser) parseTransaction() *ast.Transaction {
 		tx.Status = p.parseStatus()
 	}
 
+	if p.current.Type == TokenLParen {
+		// on a transaction header "(" always opens a code, even "(a:b)"
+		p.current = p.lexer.RescanAsCode(p.current.Pos)
+	}
+
 	if p.current.Type == TokenCode {
 		tx.Code = p.current.Value
 		p.advance()
 	}
 
+	p.expectFreeText()
 	if p.current.Type == TokenText {
 		desc := p.current.Value
 		p.advance()
@@ -109,6 +119,7 @@ func (p *Parser) parseTransaction() *ast.Transaction {
 		if p.current.Type == TokenPipe {
 			tx.Payee = strings.TrimSpace(desc)
 			p.advance()
+			p.expectFreeText()
 			if p.current.Type == TokenText {
 				tx.Note = strings.TrimSpace(p.current.Value)
 				p.advance()
@@ -142,6 +153,18 @@ func (p *Parser) parseTransaction() *ast.Transaction {
 
 	tx.Range.End = toASTPosition(p.current.Pos)
 	return tx
+}
+
+// expectFreeText is called where the grammar allows only free text (the
+// description or the note of a transaction header). Whatever the lexer made of
+// the first word there (an all-caps word looks like a commodity, a word with a
+// colon like an account, a digit like a number or date) is re-read as text.
+func (p *Parser) expectFreeText() {
+	switch p.current.Type {
+	case TokenText, TokenNewline, TokenEOF, TokenComment, TokenPipe:
+		return
+	}
+	p.current = p.lexer.RescanAsText(p.current.Pos)
 }
 
 func (p *Parser) parseDate() *ast.Date {
